@@ -27,8 +27,12 @@ Definition row_matches_q (D : Z) (model_ds : list (V.region * Z)) (row : list (f
   if D =? 16384 then row_matches model_ds row
   else rows_eqb (canon (map (fun rd => (quant_region D (fst rd), snd rd)) model_ds)) (canon row).
 
-(* a pre-rounding value exactly on a rounding tie: f64 arithmetic may then round the other
-   way than exact arithmetic; such cases are not compared when D is not a power of two *)
+(* a pre-rounding value exactly on a rounding tie: f64 arithmetic may then round the other way than
+   exact arithmetic (region scalars are ratios of coordinate differences such as 4096/12288 = 1/3, not
+   exact in binary even when the coordinates are; observed: 3 - 2*(1/3) - 2*(2/3) - 1/2 is 0.5 exactly
+   but 0.5000000000000002 in f64).  A delta set that differs from the model's is tolerated when the
+   model meets such a tie for that glyph / metric; the property predicate is evaluated on the real
+   tables regardless. *)
 Definition is_tie (q : Q) : bool := Qeq_bool (q - inject_Z (Qfloor q)) (1 # 2).
 
 Fixpoint ties_from (i : nat) (ws : list (list (nat * Q))) (vals : list (option Q)) (res : list (nat * Q)) : bool :=
@@ -46,35 +50,44 @@ Fixpoint ties_from (i : nat) (ws : list (list (nat * Q))) (vals : list (option Q
 Definition has_tie (pts : points) : bool :=
   let m := V.model_new (map fst pts) in ties_from 0 (V.m_weights m) (model_vals m pts) [].
 
-Definition glyphs_have_tie (d : direction) (gs : list glyph) : bool :=
+Definition glyph_tie_flags (d : direction) (gs : list glyph) : list bool :=
   let all_locs := flat_map (fun g => map s_loc (g_srcs g)) gs in
-  (fix go (first : bool) (l : list glyph) : bool :=
+  (fix go (first : bool) (l : list glyph) : list bool :=
      match l with
-     | [] => false
+     | [] => []
      | g :: t =>
          match glyph_model_points first all_locs (g_notdef g) (glyph_points d g) with
          | Some p => has_tie p
          | None => false
-         end || go false t
+         end :: go false t
      end) true gs.
+
+Fixpoint rows_match_or_tie (D : Z) (ds : list (list (V.region * Z))) (rows : list (list (fregion * Z)))
+         (ties : list bool) : bool :=
+  match ds, rows, ties with
+  | [], [], [] => true
+  | x :: ds', r :: rows', t :: ties' => (row_matches_q D x r || t) && rows_match_or_tie D ds' rows' ties'
+  | _, _, _ => false
+  end.
 
 (* ---- advances ------------------------------------------------------------------------- *)
 (* font_defaults: hmtx/vmtx advance per glyph; font_rows: the HVAR/VVAR delta set per glyph;
-   has_map: the table has a DeltaSetIndexMap (the direct store is only possible with one model) *)
+   has_map: the table has a DeltaSetIndexMap (the direct store is only possible with one model).
+   The certified whole-table check is required for F2Dot14-exact designs without a tie. *)
 Definition check_advances (D : Z) (d : direction) (origin : V.loc) (global : list V.loc) (gs : list glyph)
            (font_defaults : list Z) (font_rows : list (list (fregion * Z))) (has_map : bool) : bool :=
   let ds := advance_deltas d gs in
+  let ties := glyph_tie_flags d gs in
   list_eqb Z.eqb (map (default_advance d origin) gs) font_defaults
   && (has_map || is_single_model d global gs)
-  && (negb (D =? 16384) || check_font d origin gs font_defaults font_rows)
-  && (forallb2 (row_matches_q D) ds font_rows
-      || (negb (D =? 16384) && glyphs_have_tie d gs)).
+  && (negb (D =? 16384) || existsb (fun b => b) ties || check_font d origin gs font_defaults font_rows)
+  && rows_match_or_tie D ds font_rows ties.
 
 (* the x deltas of (right - left) phantom point per gvar tuple, per glyph *)
 Definition check_phantoms (D : Z) (global : list V.loc) (gs : list glyph)
            (font_rows : list (list (fregion * Z))) : bool :=
-  forallb2 (row_matches_q D) (map (phantom_width_deltas global) gs) font_rows
-  || (negb (D =? 16384) && glyphs_have_tie Horizontal gs).
+  rows_match_or_tie D (map (phantom_width_deltas global) gs) font_rows
+    (map (fun g => has_tie (glyph_points Horizontal g)) gs).
 
 (* the spec evaluation of the decoded store against the harness's own exact evaluator *)
 Definition check_ivs_eval (st : ivs) (map : option (list (nat * nat)))
@@ -102,7 +115,7 @@ Definition check_metric (D : Z) (upem : Q) (origin : V.loc) (masters : list (V.l
   list_eqb Z.eqb (map (fun p => ot_round (snd p)) vals) expect
   && ((if has_mvar_tag m then opt_row_matches D (mvar_record vals) rec
        else match rec with None => true | Some _ => false end)
-      || (negb (D =? 16384) && has_tie (metric_points vals)))
+      || has_tie (metric_points vals))
   && match fld with
      | Some f => default_field (field_signed m) vals origin =? f
      | None => true
